@@ -463,7 +463,7 @@ def check_C(item, tier, r):
                     r.outcome((spec_item, 'planned', subgoals, max_steps, start, tuple(path)))
                 try:
                     ex.explore(body, on_exec)
-                except (TypeError, KeyError, ValueError, AttributeError) as e:
+                except Exception as e:      # whatever the library raises while a planned option is executed (index errors of its policy table included)
                     r.violation('planned_option_exception', dict(ctx, error=repr(e)[:300]), item)
                 r.count('states', ex.states)
     if hash(repr(item)) % 40 == 0:
